@@ -141,6 +141,9 @@ int main(int argc, char **argv) {
                 // chunk-tail variant: the density toggles d clusters before every chunk boundary of the (possibly chunked) upper level
                 if (e.eps <= 2 && e.eps_rec > 0) for (long p : {2L, 16L}) for (long d : (thorough ? std::vector<long>{0, 1, 2, 3, 5, 9} : std::vector<long>{1, 3}))
                     for (long B : {std::max<long>(5, 2 * long(e.eps_rec) + 1), 300L}) { Task t; t.cfg = c; t.kind = 5; t.rep = 44000; t.p = p; t.word_lo = d; t.word_hi = B; tasks.push_back(t); }
+                // the same with 1..11 far tail clusters: upper levels whose size is not a multiple of the chunk count and whose last points leave the trend
+                if (e.eps <= 2 && e.eps_rec > 0) for (long p : {2L, 16L}) for (long tail : (thorough ? std::vector<long>{1, 2, 3, 5, 7, 11, 13} : std::vector<long>{2, 5, 11}))
+                    { Task t; t.cfg = c; t.kind = 5; t.rep = 44000; t.p = p; t.word_lo = 1; t.word_hi = 300; t.n = tail; tasks.push_back(t); }
                 if (e.eps <= 2) for (long p : {2L, 16L}) for (long w : (thorough ? std::vector<long>{27, 114, 201, 228} : std::vector<long>{27, 228})) { Task t; t.cfg = c; t.kind = 3; t.word_lo = w; t.word_hi = w + 1; t.rep = 11000; t.n = 4; t.p = p; tasks.push_back(t); }
             }
             if ((fam & 4) && wide) {
@@ -206,7 +209,7 @@ int main(int argc, char **argv) {
                     e.family(run, cn, prop, s);
                 }
         } else if (t.kind == 5) {
-            ks::FamilySpec s; s.kind = "chunktail"; s.chunks = t.p; s.rep = t.rep; s.word = t.word_lo; s.width = t.word_hi;
+            ks::FamilySpec s; s.kind = "chunktail"; s.chunks = t.p; s.rep = t.rep; s.word = t.word_lo; s.width = t.word_hi; s.n = t.n;
             if (t.p == 16 && t.word_lo == 2) run.sample(std::string("cfg=") + e.name + " family=" + s.str());
             e.family(run, cn, prop, s);
         } else if (t.kind == 4) {
